@@ -50,11 +50,12 @@ Copy(v) == /\ st' = CopyInto(st, v)
            /\ path' = Append(path, [op |-> "copy", v |-> v])
            /\ UNCHANGED <<subj, ghost>>
 
-\* Extend::extend == repeated copy (after reserving the size hint)
-Extend(vs) == /\ st' = CopyAll(st, vs)
-              /\ copied' = copied \o vs
-              /\ path' = Append(path, [op |-> "extend", vs |-> vs])
-              /\ UNCHANGED <<subj, ghost>>
+\* Extend::extend == repeated copy, whatever the iterator's size hint promises (`hint` is an
+\* ignored argument: "exact" = ExactSizeIterator, "none" = lower bound 0)
+Extend(vs, hint) == /\ st' = CopyAll(st, vs)
+                    /\ copied' = copied \o vs
+                    /\ path' = Append(path, [op |-> "extend", vs |-> vs, hint |-> hint])
+                    /\ UNCHANGED <<subj, ghost>>
 
 \* FromIterator == with_capacity + extend, replacing the stack
 FromIter(vs) == /\ st' = CopyAll(Empty, vs)
@@ -81,7 +82,7 @@ Invisible(o) == /\ Len(ghost) < MaxGhost
 
 Next == /\ Len(path) < MaxOps
         /\ \/ "copy" \in Ops /\ \E vi \in DomIdx : Copy(DomAt(vi))
-           \/ "extend" \in Ops /\ \E bi \in BatchIdx : Extend(BatchAt(bi))
+           \/ "extend" \in Ops /\ \E bi \in BatchIdx, hint \in {"exact", "none"} : Extend(BatchAt(bi), hint)
            \/ "from_iter" \in Ops /\ \E bi \in BatchIdx : FromIter(BatchAt(bi))
            \/ \E o \in {"clear", "with_capacity", "merge_capacity"} : o \in Ops /\ Reset(o)
            \/ \E o \in {"reserve", "reserve_regions", "clone", "clone_from", "serde"} : o \in Ops /\ Invisible(o)
